@@ -610,4 +610,171 @@ theorem c07_heads_monotone (s : State) (ev : Ev) (k : Nat) : (s.node k).head ≤
     · exact Nat.le_refl _
     · rw [setNode_node]; by_cases hk : k = i <;> simp [hk]
 
+/-! ### non-vacuity: a 4 → 4 resharing with one leaver and one joiner -/
+
+/-- an event that does not start or stop node `k` -/
+def Ev.quietFor (k : Nat) : Ev → Prop
+  | .stop i => i ≠ k
+  | .restart i => i ≠ k
+  | .join i _ => i ≠ k
+  | _ => True
+
+/-- a node that does not run and is not started stays as it is: down, same head -/
+theorem frozen_apply (s : State) (ev : Ev) (k : Nat) (hd : (s.node k).up = false) (hq : ev.quietFor k) :
+    ((s.apply ev).node k).up = false ∧ ((s.apply ev).node k).head = (s.node k).head := by
+  have ofExt : ∀ s', Ext s s' → (s'.node k).up = false ∧ (s'.node k).head = (s.node k).head :=
+    fun s' x => ⟨(x.node k).1.trans hd, x.down k hd⟩
+  cases ev with
+  | advance => exact ⟨hd, rfl⟩
+  | tick i => exact ofExt _ (ext_tick s i)
+  | fire i => exact ofExt _ (ext_fire s i)
+  | deliver j =>
+    simp only [State.apply]
+    cases hm : s.msgs[j]? with
+    | none => exact ⟨hd, rfl⟩
+    | some m =>
+      have x := ext_recv { s with msgs := s.msgs.eraseIdx j } m
+      exact ⟨(x.node k).1.trans hd, x.down k hd⟩
+  | drop j => exact ⟨hd, rfl⟩
+  | deliverAll => exact ofExt _ (ext_deliverAll s)
+  | pull i => exact ofExt _ (ext_pull s i)
+  | stop i =>
+    have hki : k ≠ i := fun h => hq h.symm
+    simp only [State.apply, State.stop, setNode_node, hki, if_false]
+    exact ⟨hd, trivial⟩
+  | restart i =>
+    have hki : k ≠ i := fun h => hq h.symm
+    simp only [State.apply, State.restart]
+    split
+    · exact ⟨hd, rfl⟩
+    · simp only [setNode_node, hki, if_false]; exact ⟨hd, trivial⟩
+  | setConn c => exact ⟨hd, rfl⟩
+  | send m => exact ⟨hd, rfl⟩
+  | announce i v t =>
+    simp only [State.apply, setNode_node]
+    by_cases hki : k = i
+    · simp only [hki, if_true]
+      rw [announce_head]
+      refine ⟨?_, rfl⟩
+      rw [hki] at hd
+      unfold Node.announce
+      simp [hd]
+    · simp only [hki, if_false]; exact ⟨hd, trivial⟩
+  | join i v =>
+    have hki : k ≠ i := fun h => hq h.symm
+    simp only [State.apply, State.join]
+    split
+    · exact ⟨hd, rfl⟩
+    · simp only [setNode_node, hki, if_false]; exact ⟨hd, trivial⟩
+
+theorem frozen_run (k : Nat) : ∀ (evs : List Ev) (s : State), (s.node k).up = false → (∀ ev ∈ evs, ev.quietFor k) →
+    ((s.run evs).node k).up = false ∧ ((s.run evs).node k).head = (s.node k).head := by
+  intro evs
+  induction evs with
+  | nil => intro s hd _; exact ⟨hd, rfl⟩
+  | cons e t ih =>
+    intro s hd hq
+    have h1 := frozen_apply s e k hd (hq e (by simp))
+    have h2 := ih (s.apply e) h1.1 (fun ev hev => hq ev (by simp [hev]))
+    exact ⟨h2.1, h2.2.trans h1.2⟩
+
+/-- the old group: four members, threshold 3 -/
+def exO : Grp := ⟨[⟨0, 0⟩, ⟨1, 1⟩, ⟨2, 2⟩, ⟨3, 3⟩], 3⟩
+
+/-- the new group: node 3 leaves, node 4 joins and gets the index the leaver had (positions in the sorted member list) -/
+def exN4 (thr : Nat) : Grp := ⟨[⟨0, 0⟩, ⟨1, 1⟩, ⟨2, 2⟩, ⟨4, 3⟩], thr⟩
+
+def exIx4 (i : Nat) : Nat := if i = 4 then 3 else i
+
+/-- transition round 2. The three remainers are told, the joiner is started the way core does it (new group + `Catchup`),
+the period of round 1 = transition − 1 passes as a fair tick sub-round written out event by event (the leaver still
+signs it), then the leaver stops (`StopAt(transition time − 1)`). -/
+def exEvs (thr : Nat) : List Ev :=
+  [.announce 0 ⟨exN4 thr, 1, 0⟩ 2, .announce 1 ⟨exN4 thr, 1, 1⟩ 2, .announce 2 ⟨exN4 thr, 1, 2⟩ 2, .join 4 ⟨exN4 thr, 1, 3⟩,
+   .advance, .tick 0, .tick 1, .tick 2, .tick 3, .tick 4, .pull 0, .pull 1, .pull 2, .pull 3, .pull 4, .deliverAll,
+   .pull 0, .pull 1, .pull 2, .pull 3, .pull 4, .stop 3]
+
+def exI : State := State.init ⟨Gen.transitionLateSwitch⟩ 5 4 exO
+
+def exS (thr : Nat) : State := exI.run (exEvs thr)
+
+/-- every event of the example keeps the discipline: the state reached is `Sane` -/
+theorem exS_sane : Sane cxNxt (exS 3) := by
+  apply sane_run (exEvs 3) exI (sane_init _ _ _ _ _)
+  refine ⟨fun _ => by decide, fun _ => by decide, fun _ => by decide, trivial, trivial,
+    fun _ => (cx_inlife _ _).mpr (by decide), fun _ => (cx_inlife _ _).mpr (by decide), fun _ => (cx_inlife _ _).mpr (by decide),
+    fun _ => (cx_inlife _ _).mpr (by decide), fun _ => (cx_inlife _ _).mpr (by decide),
+    trivial, trivial, trivial, trivial, trivial, trivial, trivial, trivial, trivial, trivial, trivial, trivial, trivial⟩
+
+theorem exS_frozen (k : Nat) : ((exS 3).node (k + 5)).up = false ∧ ((exS 3).node (k + 5)).head = 0 := by
+  have hq : ∀ ev ∈ exEvs 3, ev.quietFor (k + 5) := by
+    intro ev hev
+    simp only [exEvs, List.mem_cons, List.not_mem_nil, or_false] at hev
+    rcases hev with h | h | h | h | h | h | h | h | h | h | h | h | h | h | h | h | h | h | h | h | h | h <;> subst h <;>
+      first | trivial | (show _ ≠ _; omega)
+  have h0 : (exI.node (k + 5)).up = false ∧ (exI.node (k + 5)).head = 0 := by
+    have : exO.members.find? (fun m => m.node == k + 5) = none := by
+      simp [exO]
+    simp [exI, State.init, this]
+  have := frozen_run (k + 5) (exEvs 3) exI h0.1 hq
+  exact ⟨this.1, this.2.trans h0.2⟩
+
+/-- the state before the transition tick: clocks at 1 = transition − 1; the three remainers store round 1 and have switched,
+the joiner stores round 0 — one round behind —, the leaver has stopped -/
+theorem exS_healthy : Healthy cxNxt (exS 3) [0, 1, 2, 4] (exN4 3) 1 exIx4 := by
+  refine ⟨⟨exS_sane, ?_⟩, ⟨by decide, by decide, by decide, by decide⟩, by decide, by decide, by decide, ?_, by decide, by decide, ?_⟩
+  · intro k
+    match k with
+    | 0 => decide
+    | 1 => decide
+    | 2 => decide
+    | 3 => decide
+    | 4 => decide
+    | k + 5 => intro hu; rw [(exS_frozen k).1] at hu; cases hu
+  · intro k
+    match k with
+    | 0 => intro _; decide
+    | 1 => intro _; decide
+    | 2 => intro _; decide
+    | 3 => intro hu; exact absurd hu (by decide)
+    | 4 => intro _; decide
+    | k + 5 => intro hu; rw [(exS_frozen k).1] at hu; cases hu
+  · intro k
+    match k with
+    | 0 => exact ⟨0, by decide, by decide⟩
+    | 1 => exact ⟨0, by decide, by decide⟩
+    | 2 => exact ⟨0, by decide, by decide⟩
+    | 3 => exact ⟨0, by decide, by decide⟩
+    | 4 => exact ⟨0, by decide, by decide⟩
+    | k + 5 => exact ⟨0, by decide, by rw [(exS_frozen k).2]; exact Nat.zero_le _⟩
+
+/-- `c07_chain_continues` applies: whatever the fair schedule, after `k` periods every member of the new group — the joiner
+included — stores at least round `k` and at most round `k + 1`, the clocks showing `k + 1` -/
+example (sch : List Nat) : ∀ i ∈ [0, 1, 2, 4], 1 + sch.length ≤ (((exS 3).fairRounds sch).node i).head + 1 ∧
+    (((exS 3).fairRounds sch).node i).head ≤ 1 + sch.length :=
+  (c07_chain_continues sch (exS 3) 1 exS_healthy (by decide) (by decide)).2.2.1
+
+/-- round 2, the transition round, and the rounds after it: stored by all four when the clocks show 3 and 4 at the latest -/
+example (sch : List Nat) (hl : sch.length = 2) : ∀ i ∈ [0, 1, 2, 4], 2 ≤ (((exS 3).fairRounds sch).node i).head :=
+  (c07_round_produced (exS 3) 2 (by decide) exS_healthy (by decide) (by decide) 2 (by decide) sch).1 (by rw [hl])
+
+/-- what the model really does there: with threshold 3 the three remainers produce round 2 in its own period and the joiner
+is level after one round (it follows by sync) -/
+example : ((List.range 5).map fun k => (((exS 3).fairRounds [1]).node k).head) = [2, 2, 2, 1, 2] ∧
+    ((List.range 5).map fun k => (((exS 3).fairRounds [1, 1]).node k).head) = [3, 3, 3, 1, 3] := by decide
+
+/-- **the bound is attained**: with threshold 4 the joiner's partial is NEEDED; it is one round behind at the transition
+tick, so round 2 is not produced in its period (clock 2: heads 1), it is produced one period late (clock 3: heads 2), and
+the catch-up sub-rounds close the gap in the next period (clock 4: heads 4). Without catch-up sub-rounds the side stays
+exactly one round behind (clock 5: heads 4) — never two. -/
+example : ((List.range 5).map fun k => (((exS 4).fairRounds [1]).node k).head) = [1, 1, 1, 1, 1] ∧
+    ((List.range 5).map fun k => (((exS 4).fairRounds [1, 1]).node k).head) = [2, 2, 2, 1, 2] ∧
+    ((List.range 5).map fun k => (((exS 4).fairRounds [1, 1, 1]).node k).head) = [4, 4, 4, 1, 4] ∧
+    ((List.range 5).map fun k => (((exS 4).fairRounds [0, 0, 0, 0]).node k).head) = [4, 4, 4, 1, 4] := by decide
+
+/-- levelling: the joiner (node 4, head 0, holding the new group) reaches the head of remainer 0 in the next tick sub-round -/
+example : 1 ≤ ((exS 3).fairTick.node 4).head :=
+  c07_level (exS 3) 4 0 1 2 (by decide) (by decide) (by decide) (by decide) (by decide) (by decide) (by decide) (by decide)
+    (by decide) (by decide) (by decide)
+
 end Drand.Net.Reshare
